@@ -68,6 +68,9 @@ func init() {
 			guard(r, "FMTCONST", func() { ruleFMTCONST(w, r) })
 			guard(r, "EXTCUT", func() { ruleEXTCUT(w, r) })
 			guard(r, "GETKEYS", func() { ruleGETKEYS(w, r) })
+			guard(r, "NOWRITE", func() { ruleNOWRITE(w, r) })
+			guard(r, "NEEDSLICE", func() { ruleNEEDSLICE(w, r) })
+			guard(r, "BASECUT", func() { ruleBASECUT(w, r) })
 		},
 	})
 
@@ -84,6 +87,7 @@ func init() {
 			guard(r, "CREATE-PATHS", func() { ruleCREATEPATHS(w, r) })
 			guard(r, "NAMEFID", func() { ruleNAMEFID(w, r) })
 			guard(r, "PAIR", func() { pairPar1UTF16(w, r) })
+			guard(r, "NOWRITE", func() { ruleNOWRITE(w, r) })
 		},
 	})
 
@@ -103,6 +107,7 @@ func init() {
 			guard(r, "GLOBCALL", func() { ruleGLOBCALL(w, r) })
 			guard(r, "GLOB", func() { ruleGLOB(w, r, globOpts{literal: true, complete: true}) })
 			guard(r, "GETKEYS", func() { ruleGETKEYS(w, r) })
+			guard(r, "BASECUT", func() { ruleBASECUT(w, r) })
 			guard(r, "EXTCUT", func() { ruleEXTCUT(w, r) })
 			guard(r, "DEADST", func() { ruleDEADST(w, r) })
 			guard(r, "ACCUM", func() { ruleACCUM(w, r) })
@@ -127,6 +132,8 @@ func init() {
 			guard(r, "EFF", func() { ruleEFF(w, r, effOpts{e1: true, impl: true, onlyPkg: "par1"}) })
 			guard(r, "EXTCUT", func() { ruleEXTCUT(w, r) })
 			guard(r, "NAMESYM", func() { ruleNAMESYM(w, r, "par1") })
+			guard(r, "SAVEDONLY", func() { ruleSAVEDONLY(w, r) })
+			guard(r, "BASECUT", func() { ruleBASECUT(w, r) })
 		},
 	})
 
@@ -140,6 +147,7 @@ func init() {
 			guard(r, "PAIR", func() { rulePAIRpar2(w, r, pairOpts{encoder: true, slicing: true}) })
 			guard(r, "EFF", func() { ruleEFF(w, r, effOpts{e1: true, impl: true, onlyPkg: "par2"}) })
 			guard(r, "FMTCONST", func() { ruleFMTCONST(w, r) })
+			guard(r, "BASECUT", func() { ruleBASECUT(w, r) })
 			guard(r, "TABLEFILL", func() {
 				if w.GOARCH == "amd64" {
 					ruleTABLEFILL(w, r, 2, "mulTable", "mulTable64")
@@ -169,6 +177,7 @@ func init() {
 			guard(r, "GLOBCALL", func() { ruleGLOBCALL(w, r) })
 			guard(r, "CONST", func() { r.rule("CONST", ruleCONSTText); constByteOrder(w, r, "par2") })
 			guard(r, "EXTCUT", func() { ruleEXTCUT(w, r) })
+			guard(r, "BASECUT", func() { ruleBASECUT(w, r) })
 			guard(r, "ORDERINDEP", func() { ruleORDERINDEP(w, r) })
 			guard(r, "FILTER", func() { ruleFILTER(w, r) })
 		},
@@ -183,6 +192,7 @@ func init() {
 			guard(r, "COPYLEN", func() { ruleCOPYLEN(w, r) })
 			guard(r, "ROWCOVER", func() { ruleROWCOVER(w, r) })
 			guard(r, "ELIM", func() { ruleELIM(w, r) })
+			guard(r, "INVSOLVE", func() { ruleINVSOLVE(w, r) })
 			guard(r, "SOLVE", func() { ruleSOLVE(w, r) })
 			guard(r, "TABLEFILL", func() {
 				if w.GOARCH == "amd64" {
@@ -252,6 +262,10 @@ func init() {
 			guard(r, "IMMUT", func() { ruleIMMUT(w, r, "par1") })
 			guard(r, "EXTCUT", func() { ruleEXTCUT(w, r) })
 			guard(r, "NAMESYM", func() { ruleNAMESYM(w, r, "par1") })
+			guard(r, "SAVEDONLY", func() { ruleSAVEDONLY(w, r) })
+			guard(r, "HDRFIELDS", func() { ruleHDRFIELDS(w, r) })
+			guard(r, "BASECUT", func() { ruleBASECUT(w, r) })
+			guard(r, "EFF", func() { ruleEFF(w, r, effOpts{e1: true, impl: true, onlyPkg: "par1"}) })
 			guard(r, "RANGE", func() { ruleRANGE(w, r, []string{"par1"}, 0) })
 		},
 	})
@@ -265,6 +279,7 @@ func init() {
 			guard(r, "COPYLEN", func() { ruleCOPYLEN(w, r) })
 			guard(r, "ERRFLOW", func() { ruleERRFLOW(w, r, errflowScope{fnNames: matrixChain, tag: " on the matrix chain"}, 3) })
 			guard(r, "ELIM", func() { ruleELIM(w, r) })
+			guard(r, "INVSOLVE", func() { ruleINVSOLVE(w, r) })
 			guard(r, "ROWCOVER", func() { ruleROWCOVER(w, r) })
 			if w.GOARCH == "amd64" {
 				// row scaling and scaled row addition run through the bulk kernels
@@ -282,6 +297,17 @@ func init() {
 			guard(r, "GLOBALS", func() { ruleGLOBALS(w, r, map[string]bool{"gf2p16": true, "rsec16": true, "gf2": true}) })
 			guard(r, "OWN", func() { ruleOWN(w, r, ownOpts{kernels: true}) })
 			guard(r, "DETERM", func() { r.rule("DETERM", ruleDETERMText); determGoroutineOption(w, r) })
+			guard(r, "PAIR", func() { rulePAIRpar2(w, r, pairOpts{encoder: true, decoder: true}) })
+			guard(r, "TABLEFILL", func() {
+				if w.GOARCH == "amd64" {
+					ruleTABLEFILL(w, r, 2, "mulTable", "mulTable64")
+				} else {
+					ruleTABLEFILL(w, r, 1, "mulTable")
+				}
+			})
+			if w.GOARCH == "amd64" {
+				guard(r, "ASM", func() { pres := ruleASM(w, r); ruleKGUARD(w, r, pres) })
+			}
 		},
 	})
 
@@ -298,6 +324,9 @@ func init() {
 			guard(r, "ERRFLOW", func() { ruleERRFLOW(w, r, errflowScope{fnNames: parseChain, tag: " in the parsing functions"}, 40) })
 			guard(r, "NILLIVE", func() { ruleNILLIVE(w, r) })
 			guard(r, "NONEMPTY", func() { ruleNONEMPTY(w, r, "rsec16", "par1", "par2") })
+			guard(r, "ENTRY-SEQ", func() { ruleENTRYSEQ(w, r, "par1", "par2") })
+			guard(r, "IFSCPAIRS", func() { ruleIFSCPAIRS(w, r) })
+			guard(r, "NOWRITE", func() { ruleNOWRITE(w, r) })
 			guard(r, "PAIR", func() { rulePAIRpar2(w, r, pairOpts{decoder: true}) })
 		},
 	})
@@ -312,6 +341,9 @@ func init() {
 			guard(r, "DEADST", func() { ruleDEADST(w, r) })
 			guard(r, "POSTWRITE", func() { rulePOSTWRITE(w, r) })
 			guard(r, "GETKEYS", func() { ruleGETKEYS(w, r) })
+			guard(r, "NOWRITE", func() { ruleNOWRITE(w, r) })
+			guard(r, "NEEDSLICE", func() { ruleNEEDSLICE(w, r) })
+			guard(r, "GLOB", func() { ruleGLOB(w, r, globOpts{literal: true, complete: true}) })
 			guard(r, "SKIPOK", func() { ruleSKIPOK(w, r) })
 			guard(r, "WGUARD", func() { ruleWGUARD(w, r, false) })
 			guard(r, "REPORT", func() { ruleREPORT(w, r) })
@@ -331,6 +363,7 @@ func init() {
 			guard(r, "SANIT", func() { ruleSANIT(w, r) })
 			guard(r, "NAMEFID", func() { ruleNAMEFID(w, r) })
 			guard(r, "ANCHOR", func() { ruleANCHOR(w, r, "", 6) })
+			guard(r, "DETERM", func() { r.rule("DETERM", ruleDETERMText); determPathsPar2(w, r, false) })
 			guard(r, "EFF", func() { ruleEFF(w, r, effOpts{e1: true, e2: true}) })
 		},
 	})
@@ -344,6 +377,17 @@ func init() {
 			guard(r, "CREATE-PATHS", func() { ruleCREATEPATHS(w, r) })
 			guard(r, "ANCHOR", func() { ruleANCHOR(w, r, "Encoder)", 3) })
 			guard(r, "FMTCONST", func() { ruleFMTCONST(w, r) })
+			guard(r, "BASECUT", func() { ruleBASECUT(w, r) })
+			guard(r, "TABLEFILL", func() {
+				if w.GOARCH == "amd64" {
+					ruleTABLEFILL(w, r, 2, "mulTable", "mulTable64")
+				} else {
+					ruleTABLEFILL(w, r, 1, "mulTable")
+				}
+			})
+			if w.GOARCH == "amd64" {
+				guard(r, "ASM", func() { pres := ruleASM(w, r); ruleKGUARD(w, r, pres) })
+			}
 			guard(r, "EFF", func() { ruleEFF(w, r, effOpts{e1: true, impl: true}) })
 			guard(r, "RACE", func() { ruleRACE(w, r) })
 		},
@@ -359,6 +403,7 @@ func init() {
 			})
 			guard(r, "REPORT", func() { ruleREPORT(w, r) })
 			guard(r, "POSTWRITE", func() { rulePOSTWRITE(w, r) })
+			guard(r, "ERRKEEP", func() { ruleERRKEEP(w, r) })
 			guard(r, "EFF", func() { ruleEFF(w, r, effOpts{e1: true, e2: true}) })
 			guard(r, "GLOB", func() { ruleGLOB(w, r, globOpts{pattern: true, lists: true}) })
 		},
@@ -376,6 +421,7 @@ func init() {
 				ruleWIRE(w, r)
 			})
 			guard(r, "SHLEN", func() { ruleSHLEN(w, r) })
+			guard(r, "IFSCPAIRS", func() { ruleIFSCPAIRS(w, r) })
 			guard(r, "NILF", func() { ruleNILF(w, r) })
 			guard(r, "MKLEN", func() { ruleMKLEN(w, r) })
 			guard(r, "RANGE", func() { ruleRANGE(w, r, []string{"par1", "par2"}, 0) })
@@ -394,6 +440,9 @@ func init() {
 				ruleDECIDEPredicates(w, r, map[string]bool{"par1": true, "par2": true})
 			})
 			guard(r, "PAIR", func() { rulePAIRERRTYPE(w, r); ruleCLASSIFY(w, r); pairPar1Reconstruct(w, r) })
+			guard(r, "ERRIDENT", func() { ruleERRIDENT(w, r) })
+			guard(r, "NEEDSLICE", func() { ruleNEEDSLICE(w, r) })
+			guard(r, "GATE", func() { ruleGATE(w, r, gateOpts{par1: true}) })
 			guard(r, "GLOB", func() { ruleGLOB(w, r, globOpts{complete: true}) })
 			guard(r, "ENTRY-SEQ", func() { ruleENTRYSEQ(w, r, "par1", "par2") })
 			guard(r, "DETERM", func() { r.rule("DETERM", ruleDETERMText); determPathsPar2(w, r, false) })
